@@ -318,9 +318,12 @@ def streams(tier, rng):
         cases.append((1110, [CFDP + rbytes(rng, n - 4)]))
     for bad in ([0xff, 0xfe, 0, 0, 0], [0xc3, 0x28, 0x64, 0x70, 1], [0x63, 0x66, 0x64, 0xf0, 0x90], [0x80] * 6, [0xe2, 0x82, 0xac, 0x70, 5, 5]):
         cases.append((1110, [bad])); cases += all_getters([2, len(bad)] + bad)
+    yield "exh_marker_octet_substitutions", "exact", cases
+    cases = []
     for _ in range(3000 if big else 800):
-        cases.append((1110, [rbytes(rng, rng.randrange(0, 12))]))
-    yield "exh_is_reserved_first_octets", "exact", cases
+        v = rbytes(rng, rng.randrange(0, 12))
+        cases.append((1110, [v])); cases.append((1111, [[2, len(v)] + v]))
+    yield "is_reserved_random", "exact", cases
     # 3. structured valid: every kind, ID widths 1/2/4/8 (+0 and invalid widths), boundary values and name lengths
     cases = []
     for w in [0, 1, 2, 3, 4, 5, 8, 9, -1]:
